@@ -124,6 +124,8 @@ pub struct CaState {
 	/// identifier set ("type:value" as ordered) -> certificate name of the daemon
 	pub ident_map: Vec<(BTreeSet<String>, String)>,
 	nonce_ctr: u64,
+	/// leaf certificates already issued, by public key and names (plan.repeat_leaf)
+	leaf_cache: HashMap<(Vec<u8>, String), Vec<u8>>,
 }
 
 #[derive(Clone, Debug, serde::Serialize)]
@@ -1182,6 +1184,26 @@ fn process(g: &mut CaState, idx: usize, head: &Head, path: &str, pos: &Pos, oid:
 					return Resp::problem("badCSR", 400, "cannot issue");
 				}
 			};
+			let pem = if plan.repeat_leaf {
+				// the first block is the leaf: an earlier leaf for the same key and names replaces it
+				let txt = String::from_utf8_lossy(&pem).to_string();
+				let end = txt.find("-----END CERTIFICATE-----\n").map(|i| i + 26).unwrap_or(txt.len());
+				let (leaf, rest) = txt.split_at(end);
+				let key = (view.spki.clone(), format!("{:?}", want));
+				match g.leaf_cache.get(&key) {
+					Some(old) => {
+						let mut p = old.clone();
+						p.extend_from_slice(rest.as_bytes());
+						p
+					}
+					None => {
+						g.leaf_cache.insert(key, leaf.as_bytes().to_vec());
+						pem
+					}
+				}
+			} else {
+				pem
+			};
 			let o = &mut g.orders[oid];
 			o.issued_pem = Some(pem);
 			o.finalized = true;
@@ -1421,6 +1443,7 @@ impl MockCa {
 			issuer: issuer.clone(),
 			ident_map,
 			nonce_ctr: 0,
+			leaf_cache: HashMap::new(),
 		}));
 		let stop = Arc::new(AtomicBool::new(false));
 		let st2 = state.clone();
